@@ -17,7 +17,7 @@ use crate::prog::*;
 // ---------------------------------------------------------------------------------------------
 
 /// field value with ordinary hashing
-#[derive(Clone, Copy, Debug)]
+#[derive(Clone, Copy, Debug, serde::Serialize, serde::Deserialize)]
 pub struct FV(pub u32);
 impl PartialEq for FV {
     fn eq(&self, o: &FV) -> bool {
@@ -37,7 +37,7 @@ impl std::hash::Hash for FV {
 /// that different identity values collide on (hash, disambiguator) and salsa has to distinguish
 /// them by equality (generation bump in place) — same idea as upstream's `BadHash` tests.
 pub static COARSE_IDENT_HASH: std::sync::atomic::AtomicBool = std::sync::atomic::AtomicBool::new(false);
-#[derive(Clone, Copy, Debug)]
+#[derive(Clone, Copy, Debug, serde::Serialize, serde::Deserialize)]
 pub struct IV(pub u32);
 impl PartialEq for IV {
     fn eq(&self, o: &IV) -> bool {
@@ -55,7 +55,7 @@ impl std::hash::Hash for IV {
 
 /// interned field value with a constant hash, so every value of a type lands in the same shard
 /// (slot reuse is only possible within a shard) — same trick as upstream's `BadHash`.
-#[derive(Clone, Copy, Debug)]
+#[derive(Clone, Copy, Debug, serde::Serialize, serde::Deserialize)]
 pub struct SV(pub u32);
 impl PartialEq for SV {
     fn eq(&self, o: &SV) -> bool {
@@ -74,6 +74,16 @@ impl std::hash::Hash for SV {
 /// live token: lets the harness observe whether a memoized value is still cached
 #[derive(Clone, Debug, Default)]
 pub struct Tok(Option<Arc<TokInner>>);
+impl serde::Serialize for Tok {
+    fn serialize<S: serde::Serializer>(&self, s: S) -> Result<S::Ok, S::Error> {
+        s.serialize_unit()
+    }
+}
+impl<'de> serde::Deserialize<'de> for Tok {
+    fn deserialize<D: serde::Deserializer<'de>>(d: D) -> Result<Self, D::Error> {
+        <()>::deserialize(d).map(|_| Tok::default())
+    }
+}
 #[derive(Debug)]
 pub struct TokInner(Arc<AtomicUsize>);
 impl Drop for TokInner {
@@ -92,7 +102,8 @@ impl Tok {
 // salsa items
 // ---------------------------------------------------------------------------------------------
 
-#[salsa::input]
+#[cfg_attr(feature = "persist", salsa::input(persist))]
+#[cfg_attr(not(feature = "persist"), salsa::input)]
 pub struct Slot {
     #[returns(copy)]
     pub f0: u32,
@@ -100,13 +111,15 @@ pub struct Slot {
     pub f1: u32,
 }
 
-#[salsa::input]
+#[cfg_attr(feature = "persist", salsa::input(persist))]
+#[cfg_attr(not(feature = "persist"), salsa::input)]
 pub struct NodeKey {
     #[returns(copy)]
     pub tag: u32,
 }
 
-#[salsa::tracked(debug)]
+#[cfg_attr(feature = "persist", salsa::tracked(debug, persist))]
+#[cfg_attr(not(feature = "persist"), salsa::tracked(debug))]
 pub struct Ent<'db> {
     #[returns(copy)]
     pub ident: IV,
@@ -119,28 +132,33 @@ pub struct Ent<'db> {
     pub tn: FV,
 }
 
-#[salsa::interned(revisions = 1, debug)]
+#[cfg_attr(feature = "persist", salsa::interned(revisions = 1, debug, persist))]
+#[cfg_attr(not(feature = "persist"), salsa::interned(revisions = 1, debug))]
 pub struct Sym1<'db> {
     #[returns(copy)]
     pub x: SV,
 }
-#[salsa::interned(revisions = 2, debug)]
+#[cfg_attr(feature = "persist", salsa::interned(revisions = 2, debug, persist))]
+#[cfg_attr(not(feature = "persist"), salsa::interned(revisions = 2, debug))]
 pub struct Sym2<'db> {
     #[returns(copy)]
     pub x: SV,
 }
-#[salsa::interned(debug)]
+#[cfg_attr(feature = "persist", salsa::interned(debug, persist))]
+#[cfg_attr(not(feature = "persist"), salsa::interned(debug))]
 pub struct Sym3<'db> {
     #[returns(copy)]
     pub x: SV,
 }
-#[salsa::interned(revisions = usize::MAX, debug)]
+#[cfg_attr(feature = "persist", salsa::interned(revisions = usize::MAX, debug, persist))]
+#[cfg_attr(not(feature = "persist"), salsa::interned(revisions = usize::MAX, debug))]
 pub struct SymImm<'db> {
     #[returns(copy)]
     pub x: FV,
 }
 
 #[derive(Clone, Copy, Debug, PartialEq, Eq, Hash, salsa::SalsaValue)]
+#[cfg_attr(feature = "persist", derive(serde::Serialize, serde::Deserialize))]
 pub enum SymAny<'db> {
     S1(Sym1<'db>),
     S2(Sym2<'db>),
@@ -180,6 +198,7 @@ impl<'db> SymAny<'db> {
 pub struct Diag(pub u32);
 
 #[derive(Clone, Debug, salsa::SalsaValue)]
+#[cfg_attr(feature = "persist", derive(serde::Serialize, serde::Deserialize))]
 pub struct Out<'db> {
     pub v: u32,
     pub ents: Vec<Ent<'db>>,
@@ -342,7 +361,8 @@ fn node_of(db: &dyn Vd, k: NodeKey) -> (u8, u8) {
     *db.ctx().keymap.lock().unwrap().get(&k.as_id().as_bits()).expect("unknown NodeKey")
 }
 
-#[salsa::tracked(returns(clone))]
+#[cfg_attr(feature = "persist", salsa::tracked(returns(clone), persist))]
+#[cfg_attr(not(feature = "persist"), salsa::tracked(returns(clone)))]
 pub fn plain<'db>(db: &'db dyn Vd, k: NodeKey) -> Out<'db> {
     let (n, a) = node_of(db, k);
     interp_node(db, n, a)
@@ -354,13 +374,15 @@ pub fn plain_noeq<'db>(db: &'db dyn Vd, k: NodeKey) -> Out<'db> {
     interp_node(db, n, a)
 }
 
-#[salsa::tracked(returns(ref))]
+#[cfg_attr(feature = "persist", salsa::tracked(returns(ref), persist))]
+#[cfg_attr(not(feature = "persist"), salsa::tracked(returns(ref)))]
 pub fn plain_ref<'db>(db: &'db dyn Vd, k: NodeKey) -> Out<'db> {
     let (n, a) = node_of(db, k);
     interp_node(db, n, a)
 }
 
-#[salsa::tracked(returns(clone))]
+#[cfg_attr(feature = "persist", salsa::tracked(returns(clone), persist))]
+#[cfg_attr(not(feature = "persist"), salsa::tracked(returns(clone)))]
 pub fn zero0<'db>(db: &'db dyn Vd) -> Out<'db> {
     let n = db.ctx().zero_nodes[0].expect("zero0 not mapped");
     interp_node(db, n, 0)
@@ -372,7 +394,8 @@ pub fn zero1<'db>(db: &'db dyn Vd) -> Out<'db> {
     interp_node(db, n, 0)
 }
 
-#[salsa::tracked(returns(clone))]
+#[cfg_attr(feature = "persist", salsa::tracked(returns(clone), persist))]
+#[cfg_attr(not(feature = "persist"), salsa::tracked(returns(clone)))]
 pub fn two<'db>(db: &'db dyn Vd, node: u32, arg: u32) -> Out<'db> {
     interp_node(db, node as u8, arg as u8)
 }
@@ -383,7 +406,8 @@ pub fn lru<'db>(db: &'db dyn Vd, k: NodeKey) -> Out<'db> {
     interp_node(db, n, a)
 }
 
-#[salsa::tracked(returns(clone))]
+#[cfg_attr(feature = "persist", salsa::tracked(returns(clone), persist))]
+#[cfg_attr(not(feature = "persist"), salsa::tracked(returns(clone)))]
 pub fn on_ent<'db>(db: &'db dyn Vd, e: Ent<'db>) -> Out<'db> {
     let ctx = db.ctx();
     let prog = ctx.prog.clone();
@@ -397,7 +421,8 @@ pub fn on_ent_spec<'db>(db: &'db dyn Vd, e: Ent<'db>) -> Out<'db> {
     interp(db, LKey::OnEntSpec(e.as_id().as_bits()), &prog.on_ent_spec, 0, vec![e], vec![], false)
 }
 
-#[salsa::tracked(returns(clone))]
+#[cfg_attr(feature = "persist", salsa::tracked(returns(clone), persist))]
+#[cfg_attr(not(feature = "persist"), salsa::tracked(returns(clone)))]
 pub fn on_sym1<'db>(db: &'db dyn Vd, s: Sym1<'db>) -> Out<'db> {
     let prog = db.ctx().prog.clone();
     interp(db, LKey::OnSym(0, s.as_id().as_bits()), &prog.on_sym, 0, vec![], vec![SymAny::S1(s)], false)
@@ -829,6 +854,72 @@ impl World {
             ctx.nodekeys.lock().unwrap().push(row);
         }
         World { db, ctx }
+    }
+
+    /// Serialize the database with serde_json, deserialize it into a fresh database of the same
+    /// type and return the world around the restored database (C26). Handles of inputs are
+    /// re-obtained by enumerating the restored ingredients in allocation order.
+    #[cfg(feature = "persist")]
+    pub fn snapshot_roundtrip(&mut self) -> Result<World, Pan> {
+        use salsa::plumbing::ZalsaDatabase;
+        let prev = fault::pause();
+        let db = &mut self.db;
+        let json = catch_unwind(AssertUnwindSafe(|| serde_json::to_string(&<dyn salsa::Database>::as_serialize(db)))).map_err(|p| {
+            fault::resume(prev);
+            Pan::Msg(format!("serialize panicked: {}", classify_panic(p).text()))
+        })?;
+        let json = json.map_err(|e| {
+            fault::resume(prev);
+            Pan::Msg(format!("serialize failed: {e}"))
+        })?;
+        if std::env::var_os("VH_DUMP_JSON").is_some() {
+            eprintln!("{json}");
+        }
+        let cells = self.ctx.cells.lock().unwrap().clone();
+        let ctx = new_ctx(self.ctx.prog.clone(), cells);
+        let c2 = ctx.clone();
+        let storage = salsa::Storage::new(Some(Box::new(move |ev| c2.on_event(ev))));
+        let mut db2 = VDb { storage, ctx: ctx.clone() };
+        let r = catch_unwind(AssertUnwindSafe(|| <dyn salsa::Database>::deserialize(&mut db2, &mut serde_json::Deserializer::from_str(&json))));
+        fault::resume(prev);
+        match r {
+            Err(p) => return Err(Pan::Msg(format!("deserialize panicked: {}", classify_panic(p).text()))),
+            Ok(Err(e)) => return Err(Pan::Msg(format!("deserialize failed: {e}"))),
+            Ok(Ok(())) => {}
+        }
+        let slots: Vec<Slot> = Slot::ingredient(&db2).entries(db2.zalsa()).map(|e| e.as_struct()).collect();
+        if slots.len() != self.ctx.slots.lock().unwrap().len() {
+            return Err(Pan::Msg(format!("restored database has {} Slot inputs, expected {}", slots.len(), self.ctx.slots.lock().unwrap().len())));
+        }
+        *ctx.slots.lock().unwrap() = slots;
+        let keys: Vec<NodeKey> = NodeKey::ingredient(&db2).entries(db2.zalsa()).map(|e| e.as_struct()).collect();
+        let mut rows: Vec<Vec<Option<NodeKey>>> = self.ctx.prog.nodes.iter().map(|n| vec![None; n.nargs as usize]).collect();
+        for k in keys {
+            let tag = k.tag(&db2);
+            let (n, a) = ((tag >> 8) as usize, (tag & 0xFF) as usize);
+            if n < rows.len() && a < rows[n].len() {
+                rows[n][a] = Some(k);
+                ctx.keymap.lock().unwrap().insert(k.as_id().as_bits(), (n as u8, a as u8));
+            }
+        }
+        let mut out = vec![];
+        for r in rows {
+            let mut row = vec![];
+            for k in r {
+                match k {
+                    Some(k) => row.push(k),
+                    None => return Err(Pan::Msg("restored database misses a NodeKey input".into())),
+                }
+            }
+            out.push(row);
+        }
+        *ctx.nodekeys.lock().unwrap() = out;
+        Ok(World { db: db2, ctx })
+    }
+
+    #[cfg(not(feature = "persist"))]
+    pub fn snapshot_roundtrip(&mut self) -> Result<World, Pan> {
+        Err(Pan::Msg("built without the persist feature".into()))
     }
 
     pub fn reset_budget(&self) {
